@@ -26,9 +26,31 @@ CONTRASTS = [None, "contr.sum", "contr.helmert", "contr.diff", "contr.poly", "co
              "contr.helmert(reverse=False, scale=True)", "contr.diff(backward=False)"]
 
 
-def crossed_frame(levels: dict, seed: int):
+# The model's factors are abstract (three categorical, two numerical) and its levels are positions. Their concrete names and labels
+# are the harness's choice and must not matter: the default spelling has every categorical name sorting before every numerical one
+# and truthy string labels; the alternatives put the numerical names first in sort order / use labels whose first level is falsy.
+NAMES = [{"A": "A", "B": "B", "D": "D", "a": "a", "b": "b"}, {"A": "sex", "B": "trt", "D": "ward", "a": "age", "b": "bmi"}]
+LABELS = ["strings", "ints-from-zero", "empty-string-first"]
+
+
+def label_of(scheme: str, i: int):
+    if scheme == "ints-from-zero":
+        return i
+    if scheme == "empty-string-first":
+        return "" if i == 0 else f"l{i}"
+    return f"l{i}"
+
+
+def crossed_frame(levels: dict, seed: int, names=None, labels: str = "strings"):
     import pandas
 
+    if names is not None or labels != "strings":
+        names = names or NAMES[0]
+        base = crossed_frame(levels, seed)
+        out = pandas.DataFrame({names[c]: base[c] for c in base.columns})
+        for c in "ABD":
+            out[names[c]] = pandas.Series([label_of(labels, int(v[1:])) for v in base[c]], dtype=object)
+        return out
     rng = random.Random(seed)
     primes = [2, 3, 5, 7, 11, 13, 17, 19, 23, 29, 31, 37, 41, 43, 47, 53, 59, 61, 67, 71, 73, 79, 83, 89, 97, 101, 103, 107, 109, 113]
     rows = []
@@ -41,10 +63,11 @@ def crossed_frame(levels: dict, seed: int):
     return df
 
 
-def factor_expr(f: str, contrast) -> str:
+def factor_expr(f: str, contrast, names=None) -> str:
+    n = (names or NAMES[0])[f]
     if KIND[f] == "cat" and contrast:
-        return f"C({f}, {contrast})"
-    return f
+        return f"C({n}, {contrast})"
+    return n
 
 
 def replay_case(case):
@@ -56,7 +79,11 @@ def replay_case(case):
     levels = {"A": 1 + (h // 11) % 3, "B": 2 + (h // 37) % 2, "D": 2}
     if contrast and "l1" in contrast:
         levels["A"] = max(2, levels["A"])
-    df = crossed_frame(levels, h)
+    names = NAMES[(h // 5) % len(NAMES)]
+    labels = LABELS[(h // 13) % len(LABELS)] if not (contrast and "l1" in contrast) else "strings"     # (that option names a level by its label)
+    if labels == "ints-from-zero" and contrast is None:
+        labels = "empty-string-first"       # a bare column of integers is numerical, not categorical
+    df = crossed_frame(levels, h, names, labels)
     terms = []
     if case["icpt"]:
         terms.append(Term([Factor("1", eval_method="literal")]))
@@ -68,16 +95,16 @@ def replay_case(case):
             order = order[::-1]
         elif (h >> (7 + ti)) & 1 and len(order) >= 3:
             order = order[1:] + order[:1]
-        terms.append(Term([Factor(factor_expr(f, contrast), eval_method="python" if (KIND[f] == "cat" and contrast) else "lookup") for f in order]))
+        terms.append(Term([Factor(factor_expr(f, contrast, names), eval_method="python" if (KIND[f] == "cat" and contrast) else "lookup") for f in order]))
     F = Formula(terms, _ordering="none")
     kw = {"cluster_by": "numerical_factors"} if case["cluster"] else {}
-    rec = {"id": 0, "formula": [str(t) for t in terms], "contrast": contrast, "levels": levels, "cluster": case["cluster"]}
+    rec = {"id": 0, "formula": [str(t) for t in terms], "contrast": contrast, "levels": levels, "cluster": case["cluster"], "labels": labels}
     try:
         X = model_matrix(F, df, output="numpy", ensure_full_rank=True, context={}, **kw)
         Xf = model_matrix(F, df, output="numpy", ensure_full_rank=False, context={}, **kw)
     except Exception as e:  # noqa
         return {**rec, "exc": type(e).__name__ + ": " + str(e)[:120]}
-    back = {factor_expr(f, contrast): f for f in KIND}
+    back = {factor_expr(f, contrast, names): f for f in KIND}
     scoped = [[[[back.get(sf.factor.expr, sf.factor.expr), "reduced" if sf.reduced else "full"] for sf in st.factors] for st in s.scoped_terms]
               for s in X.model_spec.structure]
     obs_terms = [[{"e": back.get(f.expr, f.expr), "kind": "lit" if f.eval_method.value == "literal" else KIND[back.get(f.expr, f.expr)],
@@ -137,7 +164,7 @@ def run(ctx: Ctx) -> None:
     for rec in recs:
         ctx.traces += 1
         ctx.evaluations += 1
-        case = {"formula": rec["formula"], "contrast": rec["contrast"], "levels": rec["levels"], "cluster": rec["cluster"]}
+        case = {"formula": rec["formula"], "contrast": rec["contrast"], "levels": rec["levels"], "cluster": rec["cluster"], "labels": rec.get("labels", "strings")}
         if "exc" in rec:
             ctx.violation(case, {"why": "exception", "observed": rec["exc"]}, kind="replay")
             continue
